@@ -114,13 +114,83 @@ func (fr *frame) goArgs(v value) []any {
 	return out
 }
 
+// symSprintf formats natively, except that a symbolic string under a plain %s / %v keeps its
+// symbolic bytes (REQUEST_LINE and similar values are built with Sprintf).  Other symbolic
+// operands are rendered as placeholders, as before.
+func (fr *frame) symSprintf(format string, argv value) value {
+	sl, _ := argv.([]value)
+	hasSym := false
+	for _, a := range sl {
+		if it, ok := a.(iface); ok {
+			a = it.v
+		}
+		if _, ok := a.(*symstr); ok {
+			hasSym = true
+		}
+	}
+	if !hasSym || strings.ContainsAny(format, "[*") {
+		return fmt.Sprintf(format, fr.goArgs(argv)...)
+	}
+	var out []value
+	lit := func(t string) {
+		for k := 0; k < len(t); k++ {
+			out = append(out, t[k])
+		}
+	}
+	argi := 0
+	for i := 0; i < len(format); {
+		if format[i] != '%' {
+			j := i
+			for j < len(format) && format[j] != '%' {
+				j++
+			}
+			lit(format[i:j])
+			i = j
+			continue
+		}
+		j := i + 1
+		for j < len(format) && strings.IndexByte("+-# 0123456789.", format[j]) >= 0 {
+			j++
+		}
+		if j >= len(format) {
+			lit(format[i:])
+			break
+		}
+		spec := format[i : j+1]
+		i = j + 1
+		if spec == "%%" {
+			lit("%")
+			continue
+		}
+		if argi >= len(sl) {
+			lit(fmt.Sprintf(spec))
+			continue
+		}
+		a := sl[argi]
+		argi++
+		inner := a
+		if it, ok := a.(iface); ok {
+			inner = it.v
+		}
+		if ss, ok := inner.(*symstr); ok && (spec == "%s" || spec == "%v") {
+			out = append(out, ss.b...)
+			continue
+		}
+		lit(fmt.Sprintf(spec, fr.goValue(a)))
+	}
+	if argi < len(sl) {
+		lit(fmt.Sprintf("%%!(EXTRA %d)", len(sl)-argi))
+	}
+	return mkStr(out)
+}
+
 func (fr *frame) newError(msg string) value {
 	return fr.i.callByName(fr, stubPath+".NewErr", []value{msg})
 }
 
 func init() {
 	reg("fmt.Sprintf", func(fr *frame, args []value) value {
-		return fmt.Sprintf(concStr(fr, args[0], "fmt.Sprintf"), fr.goArgs(args[1])...)
+		return fr.symSprintf(concStr(fr, args[0], "fmt.Sprintf"), args[1])
 	})
 	reg("fmt.Sprint", func(fr *frame, args []value) value { return fmt.Sprint(fr.goArgs(args[0])...) })
 	reg("fmt.Sprintln", func(fr *frame, args []value) value { return fmt.Sprintln(fr.goArgs(args[0])...) })
